@@ -24,6 +24,13 @@ import (
 // Root is the verification directory.
 const Root = "/verif"
 
+// OutRoot is where evidence/ and replay/ are written: /verif, unless the development
+// aid VERIF_OUT redirects a run against a scratch checkout.
+func OutRoot() string { return envOr("VERIF_OUT", Root) }
+
+// RepoDir is the checkout of core the harness was built against.
+func RepoDir() string { return envOr("VERIF_REPO", "/repo") }
+
 // Ctx is one run of one property check.
 type Ctx struct {
 	ID     string // property id, e.g. "C15"
@@ -187,7 +194,7 @@ func (c *Ctx) Violation(key, what string, payload any) {
 			return // one replay per class
 		}
 	}
-	dir := filepath.Join(Root, "replay")
+	dir := filepath.Join(OutRoot(), "replay")
 	os.MkdirAll(dir, 0o755)
 	safe := regexp.MustCompile(`[^A-Za-z0-9_.+-]`).ReplaceAllString(key, "_")
 	if len(safe) > 80 {
@@ -243,8 +250,8 @@ func (c *Ctx) Finish() {
 	}
 	if c.Replay == "" {
 		b, _ := json.MarshalIndent(ev, "", " ")
-		os.MkdirAll(filepath.Join(Root, "evidence"), 0o755)
-		if err := os.WriteFile(filepath.Join(Root, "evidence", c.ID+".json"), b, 0o644); err != nil {
+		os.MkdirAll(filepath.Join(OutRoot(), "evidence"), 0o755)
+		if err := os.WriteFile(filepath.Join(OutRoot(), "evidence", c.ID+".json"), b, 0o644); err != nil {
 			fmt.Println("INFRA: cannot write evidence:", err)
 			os.Exit(2)
 		}
